@@ -238,7 +238,9 @@ class GroundedPrecondition:
         )
         self.logger.debug("We assume that universal preconditions are not nested.")
         is_applicable = True
-        for obj_name, obj in problem_objects.items():
+        # the domain's constants are objects of every problem, the quantifier ranges over them as well.
+        quantified_objects = {**self.domain.constants, **problem_objects}
+        for obj_name, obj in quantified_objects.items():
             if not obj.type.is_sub_type(condition.quantified_type):
                 continue
 
